@@ -90,3 +90,6 @@ func zzNodeTx(t *eth.Tx) {
 
 // zzCp: every answer carries its own bytes, as a JSON decoder would allocate them.
 func zzCp(b []byte) []byte { return append([]byte(nil), b...) }
+
+// ZZSetHead fixes the honest node's head.
+func ZZSetHead(n uint64) { zzHeadNum, zzHeadHash = n, zzCp(zzNode.BlockHash) }
